@@ -56,3 +56,14 @@ CLAIMED.update({
         note="At most 3 new growth steps per call (assumption next < (grow_steps+4)*step); sorted-ranks / max_rank <= 15 invariant assumed (GtState::init). mint_to / burn (clock, supply ledger) and the exchange vault are not encoded by E2. A three-run composite for path independence timed out on some splits and was removed. Trusted: rustc's MIR dump, the translator in /verif/mir2smt and its callee models (listed in the evidence), z3 (cvc5 cross-check best-effort, counts in the evidence).",
         technique=_E2, design='C30', engine="mir2smt"),
 })
+
+CLAIMED.update({
+    "C45": dict(
+        text=BOUNDED + "balance caps (MIR->SMT, full width): " + 'the MIR of the real Glv::validate_market_token_balance / GlvMarketConfig::validate_balance (market_token_amount_to_usd and <u128 as MulDiv>::checked_mul_div inlined from gmsol-model) for every u64 max_amount / balance, u128 max_value / supply, i128 pool value: Ok exactly when the market is in the GLV and (no caps, or balance <= max_amount if set, and pool value >= 0, supply > 0 and floor(pool*balance/supply) <= max_value if set); no panic.' + " GLV pricing (Kani, T=u8/DECIMALS=1, lean market: liquidity pool, position impact pool with distribution, supply, prices symbolic; no open interest or borrowing state in the quick tier, every market field in the thorough tier): "
+             "gmsol_model::glv::get_glv_value_for_market equals the market-token value of the balance at the pool value with the requested maximisation, get_market_token_amount_for_glv_value is its rounded-down inverse, and a deposit of market tokens "
+             "valued with the maximised pool value followed by a withdrawal of the booked GLV value at the minimised pool value never returns more market tokens than were deposited.",
+        note='GlvMarkets::get abstract (C34 decides the map). GLV pricing in gmsol-model and the instruction layer are not encoded by E2.' + " NOT decided: Glv::insert_market admission (its Kani harness on the 7 KB GLV image does not finish; kept experimental), the composition clause for markets already in a GLV and the ops/glv.rs instruction flow. "
+             "With max pnl factor for withdrawals above the one for deposits the round trip can return more tokens (configuration-dependent, key glv_round_trip_pnl_factor_order, harness kept experimental); the round trip is decided for the lean state where no pnl factor enters. "
+             "Trusted: rustc's MIR dump, /verif/mir2smt and its callee models, z3/cvc5; kani-compiler + CBMC; the narrow-width number impls.",
+        technique=_E2 + "; Kani/CBMC at reduced width for the GLV pricing functions", design="C45", engine="mir2smt+kani"),
+})
